@@ -818,7 +818,7 @@ func extWirePairs(m *MClaims, ts *int64) map[int64]*icbor.Node {
 
 func TestC15_Extensions(t *testing.T) {
 	st := NewStats("C15", "TestC15_Extensions", "rapid: six styles of extension profile (extstyles_test.go: struct embedding P1Claims / P2Claims plus one extra optional claim with codec methods routed through the embedding-aware helpers, as documented in example_extensions_test.go; derived profiles inheriting every method, one without profile claim, one named by an OID; an extra claim whose Go field name shadows a field of the embedded claims; an extension of an extension) x valid claims-sets x own claims present/absent: the CBOR is one definite map equal (as a key->value map, read independently) to the base profile's wire map plus the profile claim and the extra keys; decoding it (through the dispatcher where the style can be dispatched, and into a fresh instance) reproduces every getter, the own claims, and byte-identical CBOR; JSON round trip likewise. Non-trivial = every case (embedded level present); distinct = style + class vector + own-claim classes")
-	st.Require = []string{"ext-on-P1", "ext-on-P2", "ts-absent", "ts-present", "style=ext-p2", "style=ext-p1", "style=inherit-p1", "style=inherit-p2-oid", "style=shadow-p2", "style=nested-p2"}
+	st.Require = []string{"ext-on-P1", "ext-on-P2", "ts-absent", "ts-present", "style=ext-p2", "style=ext-p1", "style=inherit-p1", "style=inherit-p2-oid", "style=shadow-p2", "style=nested-p2", "style=lookalike-key-p2"}
 	defer st.Flush(t)
 	withExtStyles(func() {
 		rapid.Check(t, func(t *rapid.T) {
